@@ -72,6 +72,46 @@ func (p eCache) State() (int, int, bool, int, int) {
 	return glru.VerifState(p.c)
 }
 
+// mkey is a mutable primary key: every caller goroutine owns one and overwrites it
+// before each call, like a read buffer that is reused (flavour 3). The cache files
+// an entry under the inner key computed when the call was made; what the stored
+// primary key says later is the caller's business.
+type mkey struct {
+	A string
+	B int
+}
+
+func mMap(k *mkey) string { return "k:" + k.A }
+
+type mCache struct {
+	c *glru.ECache[*mkey, string, *item]
+	w *world
+}
+
+func (p mCache) key(k string) *mkey {
+	name := zsimrt.CurrentName()
+	b := p.w.keyBuf[name]
+	if b == nil {
+		b = &mkey{}
+		p.w.keyBuf[name] = b
+	}
+	b.A, b.B = k, p.w.variant()
+	return b
+}
+
+func (p mCache) Get(k string) (int, error) {
+	v, err := p.c.GetOrCreate(p.key(k))
+	if err != nil {
+		return 0, err
+	}
+	return v.id, nil
+}
+func (p mCache) Remove(k string) bool { return p.c.Remove(p.key(k)) }
+func (p mCache) Clear() int           { return p.c.Clear() }
+func (p mCache) State() (int, int, bool, int, int) {
+	return glru.VerifState(p.c)
+}
+
 type expCache struct {
 	c *glru.ExpirableCache[string, glru.ExpirableItem[*item]]
 }
@@ -120,6 +160,7 @@ const (
 )
 
 type world struct {
+	keyBuf  map[string]*mkey
 	curOp   string
 	delInCR int
 	panicAt map[int]bool
@@ -248,6 +289,7 @@ func (w *world) Setup(e *sim.Env) {
 	}
 	w.capa = int(w.c.Knob("capacity", 2))
 	w.flavor = w.c.Knob("flavor", 0)
+	w.keyBuf = map[string]*mkey{}
 	for _, f := range w.c.Faults {
 		switch f.Kind {
 		case "fail":
@@ -287,6 +329,16 @@ func (w *world) Setup(e *sim.Env) {
 			w.onDelete(k.A, v.id)
 		})
 		w.cache = eCache{c, w}
+	case 3:
+		var c *glru.ECache[*mkey, string, *item]
+		c, err = glru.NewECache[*mkey, string, *item](w.capa, mMap, func(k *mkey) (*item, error) {
+			it, _, err := w.load(k.A)
+			return it, err
+		}, func(k *mkey, v *item) {
+			// the stored key object has been overwritten since: the entry is identified by its value
+			w.onDelete(w.created[v.id], v.id)
+		})
+		w.cache = mCache{c, w}
 	default:
 		var c *glru.ExpirableCache[string, glru.ExpirableItem[*item]]
 		c, err = glru.NewExpirableCache[string, glru.ExpirableItem[*item]](w.capa, func(k string) (glru.ExpirableItem[*item], error) {
@@ -482,7 +534,11 @@ func (w *world) checkNodes(when string) {
 		return
 	}
 	if resident > w.capa {
-		w.e.Violate("C09", "over_capacity", "%d values are resident, the capacity is %d (%s)", resident, w.capa, when)
+		p := "C09"
+		if w.prop() == "C11" {
+			p = "C11" // "an LRU cache holds at most its capacity (plus a constant)"
+		}
+		w.e.Violate(p, "over_capacity", "%d values are resident, the capacity is %d (%s)", resident, w.capa, when)
 	}
 	if w.prop() != "C11" {
 		return
